@@ -1,12 +1,14 @@
 package rules
 
 import (
+	"go/types"
 	"fmt"
 	"strings"
 
 	"golang.org/x/tools/go/ssa"
 
 	"verif/checker/internal/core"
+	"verif/checker/internal/load"
 	"verif/checker/internal/ir"
 )
 
@@ -192,7 +194,7 @@ func delegation(c *core.Ctx, name string) {
 		for _, in := range b.Instrs {
 			switch x := in.(type) {
 			case *ssa.Call:
-				if x.Call.IsInvoke() && x.Call.Method.Name() == "pipef" {
+				if x.Call.IsInvoke() && sigIsPipeConv(x.Call.Method) {
 					continue
 				}
 				callsFound = append(callsFound, x)
@@ -229,7 +231,7 @@ func delegation(c *core.Ctx, name string) {
 		if a == ssa.Value(fn.Params[i]) {
 			continue
 		}
-		if pc, isCall := a.(*ssa.Call); isCall && pc.Call.IsInvoke() && pc.Call.Method.Name() == "pipef" && pc.Call.Value == ssa.Value(fn.Params[i]) {
+		if pc, isCall := a.(*ssa.Call); isCall && pc.Call.IsInvoke() && sigIsPipeConv(pc.Call.Method) && pc.Call.Value == ssa.Value(fn.Params[i]) {
 			continue
 		}
 		ok = false
@@ -269,10 +271,17 @@ func pipefKinds(c *core.Ctx) {
 		}
 	}
 	for _, ci := range catchImpls(c, "pipe/fork") {
-		tn := strings.TrimPrefix(ci.TypeName, "fork.")
-		m := c.W.Method("pipe/fork", tn, "pipef")
+		// the conversion method of this kind: recognised by its signature () pipe.F[...]
+		var m *ssa.Function
+		if ci.Named != nil {
+			for i := 0; i < ci.Named.NumMethods(); i++ {
+				if mf := ci.Named.Method(i); sigIsPipeConv(mf) {
+					m = c.W.Prog.FuncValue(mf)
+				}
+			}
+		}
 		if m == nil {
-			continue // FF kinds have no pipef
+			continue // FF kinds have no conversion
 		}
 		name := ci.TypeName + ".pipef"
 		kind := ""
@@ -291,4 +300,21 @@ func pipefKinds(c *core.Ctx) {
 		}
 		c.Check(kind == ci.Kind && kind != "", "pipef-kind", name, m.Pos(), fmt.Sprintf("%s -> pipe %s", ci.Kind, kind), "fork kind %q is converted to pipe kind %q", ci.Kind, kind)
 	}
+}
+
+// sigIsPipeConv: a parameterless method whose single result is one of package pipe's function interfaces - the
+// role of the conversion of a fork function into its pipe sibling (recognised by signature, not by name).
+func sigIsPipeConv(m *types.Func) bool {
+	if m == nil {
+		return false
+	}
+	sig, ok := m.Type().(*types.Signature)
+	if !ok || sig.Params().Len() != 0 || sig.Results().Len() != 1 {
+		return false
+	}
+	nt, ok := sig.Results().At(0).Type().(*types.Named)
+	if !ok || nt.Obj().Pkg() == nil || !types.IsInterface(nt) {
+		return false
+	}
+	return load.Logical(nt.Obj().Pkg().Path()) == "pipe"
 }
